@@ -600,6 +600,43 @@ func poolApply(w0 bfs.World, o bfs.Op, check bool) (v *bfs.Violation) {
 			}
 			sort.Slice(p1, func(i, j int) bool { return i > j })
 			sort.Slice(p2, func(i, j int) bool { return i > j })
+			// the same for every other query that hands out pooled v2 transactions: lookup by id and the
+			// partial-block query by Merkle leaf hash
+			scribble := func(txns []types.V2Transaction) {
+				for i := range txns {
+					for j := range txns[i].SiacoinInputs {
+						for k := range txns[i].SiacoinInputs[j].Parent.StateElement.MerkleProof {
+							txns[i].SiacoinInputs[j].Parent.StateElement.MerkleProof[k][2] ^= 0xff
+						}
+						if len(txns[i].SiacoinInputs[j].SatisfiedPolicy.Signatures) > 0 {
+							txns[i].SiacoinInputs[j].SatisfiedPolicy.Signatures[0][1] ^= 0xff
+						}
+					}
+					for j := range txns[i].SiacoinOutputs {
+						txns[i].SiacoinOutputs[j].Address[1] ^= 0xff
+					}
+					for j := range txns[i].SiafundInputs {
+						for k := range txns[i].SiafundInputs[j].Parent.StateElement.MerkleProof {
+							txns[i].SiafundInputs[j].Parent.StateElement.MerkleProof[k][2] ^= 0xff
+						}
+					}
+					if len(txns[i].ArbitraryData) > 0 {
+						txns[i].ArbitraryData[0] ^= 0xff
+					}
+				}
+			}
+			{
+				_, _, cur := poolIDs(n)
+				var hashes []types.Hash256
+				for _, t := range cur {
+					hashes = append(hashes, t.MerkleLeafHash())
+					if got, ok := n.CM.V2PoolTransaction(t.ID()); ok {
+						scribble([]types.V2Transaction{got})
+					}
+				}
+				_, partial := n.CM.TransactionsForPartialBlock(hashes)
+				scribble(partial)
+			}
 			_, q1, q2 := poolIDs(n)
 			if !bytes.Equal(poolSnap, encTxns(q1, q2)) {
 				return &bfs.Violation{Signature: "c14:pool-aliases-caller-or-returned-memory", What: fmt.Sprintf("%s: after %v, mutating the caller's set / the returned transactions changed what the pool reports", u.Describe(), o)}
